@@ -56,17 +56,22 @@ def run(res, tier, only_case=None):
         for f in files:
             l = zckfmt.parse_lead(f)
             hdr_end = l["lead"] + l["hlen"]
-            for pinned in (False, True, "late"):
+            for pinned in (False, True, "late", "all3"):
               lines.append("B " + vlib.hexs(f)); meta.append(("base", 0, 0))
               if pinned == "late":
                   # type and digest of the pristine file set AFTER zck_read_lead: nothing compares them any more, the
                   # stored checksum alone has to catch every change (swept over the lead only)
                   lines.append("P L%d %s -" % (l["ht"], f[l["dloc"]:l["lead"]].hex())); meta.append(("pins", 0, 0))
+              elif pinned == "all3":
+                  # type, digest AND total header length of the pristine file pinned (everything the lead can be compared with)
+                  lines.append("P %d %s %d" % (l["ht"], f[l["dloc"]:l["lead"]].hex(), hdr_end)); meta.append(("pins", 0, 0))
               elif pinned:
                   # the same sweep through the pinned-digest path (type and digest of the pristine file)
                   lines.append("P %d %s -" % (l["ht"], f[l["dloc"]:l["lead"]].hex())); meta.append(("pins", 0, 0))
               lines.append("m 0 %d" % f[0]); meta.append(("identity", 0, f[0]))
               for pos in range(hdr_end):
+                if pinned == "all3" and tier == "quick" and pos % 2 == 0 and pos >= l["lead"]:
+                    continue
                 if pinned == "late" and (pos >= l["lead"] + 4 or (tier == "quick" and not (l["dloc"] <= pos < l["lead"]) and pos % 2)):
                     continue
                 if pinned and tier == "quick" and pos % 3 != 1 and not (l["dloc"] <= pos < l["lead"]):
@@ -75,7 +80,7 @@ def run(res, tier, only_case=None):
                     vals = [v for v in range(256) if v != f[pos]]
                 else:
                     vals = {f[pos] ^ (1 << b) for b in range(8)}
-                    while len(vals) < (32 if not pinned else 12 if pinned is True else 9):
+                    while len(vals) < (32 if not pinned else 12 if pinned is True else 9 if pinned == "late" else 10):
                         v = rng.randrange(256)
                         if v != f[pos]:
                             vals.add(v)
